@@ -279,6 +279,15 @@ def check(prop, tier):
                     out = rp.run(run["harness"], s.get("model") or {}, s.get("choices") or {}, known_keys, run_cfg(prop, run))
                     if "VERIF-COMPLETED" in out and "VERIF-ASSERT-FAIL" not in out and observed_lines(out) == (s.get("observed") or []):
                         validated += 1
+                    elif "VERIF-ASSERT-FAIL" in out and "VERIF-ASSUME-FAIL" not in out and run.get("native_asserts"):
+                        # The engine found this path passing (model store / stubs), but the same solver-generated input fails an
+                        # assertion of the harness on the real code (real CLI, real store): that is a violation of the property on
+                        # the real system, reproduced natively. Only for runs whose native environment is the real thing.
+                        msg = [l for l in out.splitlines() if l.startswith("VERIF-ASSERT-FAIL")][0][len("VERIF-ASSERT-FAIL:"):].strip()
+                        v = {"kind": "assert", "msg": msg + " (real system; the engine's model passes)", "model": s.get("model") or {},
+                             "choices": s.get("choices") or {}, "where": "native validation of a path model", "confirmed": True,
+                             "replay_out": out[-1500:]}
+                        new_viol.append((run, v))
                     elif "VERIF-ASSUME-FAIL" in out:
                         inconclusive.append(f"{run['harness']}: sampled path model violates an assumption natively")
                     else:
